@@ -145,6 +145,7 @@ func (m *monC16) afterConsumer(c *Chain, req *abci.RequestFinalizeBlock, res *ab
 			w.Violation("C16", "reward-transfer-on-wrong-channel", map[string]any{"consumer": id, "channel": p.SourceChannel})
 		}
 		tallyAdd(m.sentByConsumer, id, d.Denom, a)
+		w.Infof("C16 transfer sent consumer=%s seq=%d %s%s timeout=%d", id, p.Sequence, d.Amount, d.Denom, p.TimeoutTimestamp)
 	}
 	if !sent.IsZero() {
 		if !shouldSend {
@@ -577,6 +578,7 @@ func (m *monC16) AfterBlock(c *Chain, req *abci.RequestFinalizeBlock, res *abci.
 			pd := l.ProviderDenom(d.Denom)
 			recvCredit[l.CID] = recvCredit[l.CID].Add(sdk.NewDecCoin(pd, a))
 			tallyAdd(m.creditedFor, l.CID, d.Denom, a)
+			w.Infof("C16 transfer received consumer=%s seq=%d %s%s", l.CID, rp.Packet.Sequence, d.Amount, d.Denom)
 			recvPool = recvPool.Add(sdk.NewCoin(pd, a))
 			w.Event("C16", "reward-transfers-received")
 		}
@@ -646,6 +648,7 @@ func (m *monC16) tallyRefunds(c *Chain, txs []TxOutcome) {
 			}
 			a, _ := math.NewIntFromString(d.Amount)
 			tallyAdd(m.refunded, c.ConsumerID, d.Denom, a)
+			m.w.Infof("C16 transfer refunded consumer=%s seq=%d %s%s", c.ConsumerID, pkt.Sequence, d.Amount, d.Denom)
 			m.w.Event("C16", "reward-transfers-refunded")
 		}
 	}
@@ -654,7 +657,7 @@ func (m *monC16) tallyRefunds(c *Chain, txs []TxOutcome) {
 // Final: cross-chain conservation per consumer and denom: sent = credited + refunded + still in flight.
 func (m *monC16) Final() {
 	w := m.w
-	if w.st("_tx").Events["relayer-gave-up:relay-recv"] > 0 {
+	if w.st("_tx").Events["relayer-gave-up"] > 0 {
 		return // the relayer abandoned a packet: the equation is not decidable for this world
 	}
 	for id, byDenom := range m.sentByConsumer {
@@ -663,6 +666,7 @@ func (m *monC16) Final() {
 			continue
 		}
 		inflight := map[string]math.Int{}
+		w.Infof("C16 final: consumer=%s toProv=%d timeouts=%d acksToCons=%d", id, len(l.ToProv), len(l.Timeouts), len(l.AcksToCons))
 		for _, q := range [][]*InFlight{l.ToProv, l.Timeouts} {
 			for _, f := range q {
 				if f.Done || f.Ack != nil || f.Packet.SourcePort != "transfer" {
